@@ -26,7 +26,7 @@ def run(ctx, rep):
     if len(news) < 2:
         rep.anchor_lost('R01.c2', 'RetainedMessage::new in both loops of append_messages')
     for c in news:
-        f = canon(b.pexpr_operand(c.args[0]))
+        f = canon(b.pexpr_operand(c.args[0], 0, frozenset(), (c.bb, "t")))
         ok = f == '(phi{($u32 + 1) | 0} + phi{(1 + self.current_offset) | 0})'
         rep.ob('R01.c2', sf.APPEND, 'message offset @%s' % ('dedup' if any(x.name.endswith('try_insert') for x in b.calls if b.dominates(x.bb, c.bb)) else 'plain'), ok, c.where(),
                'offset = %s' % f if ok else 'message offset has the form `%s`, expected base + running count' % f)
@@ -36,7 +36,7 @@ def run(ctx, rep):
         if not cs:
             rep.anchor_lost('R01.c2', 'add_persisted_segment in ' + fn)
         for c in cs:
-            pe = bb_.pexpr_operand(c.args[1])
+            pe = bb_.pexpr_operand(c.args[1], 0, frozenset(), (c.bb, "t"))
             f = canon(pe)
             inner = is_plus_one(pe)
             ok = inner is not None and any(y[0] == 'field' and y[2] == 'end_offset' for y in walk(inner)) and not any(y[0] == 'bin' for y in walk(inner))
